@@ -64,9 +64,12 @@ def generate(rng, tier):
         datas.append(bytes(rng.randrange(256) for _ in range(L)))
     datas += [b"abc", b"", b"a" * 1000, bytes(rng.randrange(256) for _ in range(5000)), bytes(rng.randrange(256) for _ in range(20000))]
     patches = [b"$NetBSD: patch-aa,v 1.1 $\n\n--- a\n+++ b\n@@ x\n-old\n+new\n", b"x\n$NetBSD$\ny", b"no newline at end", b"\n\n\n", b"$NetBSD", b"a$NetBS\nD$\n",
-               b"l1\r\nl2 $NetBSD$ tail\r\nl3", b"$NetBSD$\n", b"\n", b"x$NetBSDy\nz\n", b"only\n"]
+               b"l1\r\nl2 $NetBSD$ tail\r\nl3", b"$NetBSD$\n", b"\n", b"x$NetBSDy\nz\n", b"only\n",
+               # the marker preceded by '$' or by a partial match of itself (a naive single-pass matcher or a first-'$' test misses these)
+               b"a\n$$NetBSD$$\nb\n", b"$N$NetBSD\nk\n", b"$Net$NetBSD: x $\n", b"$5 and $NetBSD: y $\nkeep\n", b"# $$NetBSD$\n", b"${X} $NetBSD\n",
+               b"$NetBS$NetBSD\n", b"$$$NetBSD\n", b"$NetBSD$NetBSD\n", b"$OpenBSD: q $ $NetBSD$\nz"]
     for _ in range(10 if tier == "quick" else 100):
-        ls = [rng.choice([b"line", b"", b"$NetBSD: x $", b"+ added $NetBSD$ here", b"\xff\xfe", b"--- a/b", b"$NetBS", b"NetBSD$"]) for _ in range(rng.randint(0, 8))]
+        ls = [rng.choice([b"line", b"", b"$NetBSD: x $", b"+ added $NetBSD$ here", b"\xff\xfe", b"--- a/b", b"$NetBS", b"NetBSD$", b"$$NetBSD$$", b"$N$NetBSD", b"$Net$NetBSD: z $", b"$1 $NetBSD$"]) for _ in range(rng.randint(0, 8))]
         patches.append(b"\n".join(ls) + (b"\n" if rng.random() < 0.6 else b""))
     for data in datas + patches:
         algs = range(6) if len(data) <= 300 else [rng.randrange(6)]
